@@ -3,7 +3,7 @@
 cd /verif
 for P in "$@"; do
   s=$(date +%s)
-  timeout 2400 ./check $P thorough > /tmp/calib_$P.log 2>&1
+  timeout ${CAP:-2400} ./check $P thorough > /tmp/calib_$P.log 2>&1
   rc=$?
   e=$(date +%s)
   echo "$P rc=$rc wall=$((e-s))s $(grep -c VIOLATION /tmp/calib_$P.log) violations; $(grep -m1 INCONCLUSIVE /tmp/calib_$P.log | cut -c1-160)" >> /tmp/calib.txt
